@@ -109,6 +109,44 @@ def run(ctx):
             elif name.startswith('hash'):
                 # order of a is part of the property for the hash variants
                 ctx.spec_fail('%s|order' % name, '%s does not keep the order of a' % name, case)
+    # ---- argument forms and inputs the model does not speak: presorted=True with rows of different sequence types,
+    # field names that are integers (a header is data, never a list of positions)
+    from petl.comparison import Comparable as _C
+    for ci in range(200 if ctx.thorough() else 40):
+        w = rng.choice([1, 2, 2, 3])
+        pool = rng.sample([None, 1, 2, 'a', 'b', 2.5], rng.choice([2, 3]))
+        hdr_s = ['f%d' % j for j in range(w)]
+        hdr_i = rng.choice([list(range(w))[::-1], [2019 + j for j in range(w)], [1] * w, [0] + ['x'] * (w - 1)])
+        A = gen.table(rng, hdr_s, default_pool=pool, maxn=6, ragged=0.0)
+        B = gen.table(rng, hdr_s, default_pool=pool, maxn=6, ragged=0.0)
+        ca, cb = Counter(tuple(r) for r in A[1:]), Counter(tuple(r) for r in B[1:])
+        nt = bool(ca & cb)
+        # (a) presorted inputs, a's rows tuples and b's rows lists
+        srt = lambda T: [T[0]] + sorted(T[1:], key=lambda r: tuple(_C(v) for v in r))
+        As = [tuple(r) for r in srt(A)]
+        Bs = [list(r) for r in srt(B)]
+        for name, call, want in (('complement', lambda: etl.complement(As, Bs, presorted=True), ca - cb),
+                                 ('intersection', lambda: etl.intersection(As, Bs, presorted=True), ca & cb),
+                                 ('complement(strict)', lambda: etl.complement(As, Bs, presorted=True, strict=True),
+                                  Counter({k: v for k, v in ca.items() if cb[k] == 0}))):
+            rows, err = util.collect(call())
+            ctx.case((name, 'presorted-mixed-rowtypes', repr(As), repr(Bs)) if nt else None)
+            ctx.count('presorted-mixed-rowtypes')
+            if err is not None or Counter(tuple(r) for r in rows[1:]) != want:
+                ctx.spec_fail('%s|presorted|row-types' % name, '%s(presorted=True) with tuple rows in a and list rows in b is not the multiset operation' % name,
+                              {'op': name, 'a': repr(As), 'b': repr(Bs), 'got': repr(rows), 'error': err})
+        # (b) the same tables under a header of integer field names
+        Ai, Bi = [hdr_i] + A[1:], [hdr_i] + B[1:]
+        for name, call, want in (('complement', lambda: etl.complement(Ai, Bi), ca - cb),
+                                 ('intersection', lambda: etl.intersection(Ai, Bi), ca & cb),
+                                 ('diff.added', lambda: etl.diff(Ai, Bi)[0], cb - ca),
+                                 ('hashcomplement', lambda: etl.hashcomplement(Ai, Bi), ca - cb)):
+            rows, err = util.collect(call())
+            ctx.case((name, 'int-field-names', repr(Ai), repr(Bi)) if nt else None)
+            ctx.count('int-field-names')
+            if err is not None or Counter(tuple(r) for r in rows[1:]) != want:
+                ctx.spec_fail('%s|int-field-names' % name, '%s on tables whose field names are integers is not the multiset operation' % name,
+                              {'op': name, 'a': repr(Ai), 'b': repr(Bi), 'got': repr(rows), 'error': err})
 
 
 def replay(d):
